@@ -4,13 +4,22 @@
    __len__ walk), [load_delimited sc c s] = Cls().load(stream, SIZE_DELIMITED) (Model/Decode.v: prefix varint,
    read/size accounting, the size == 0 case, the three size errors), [parse sc c bs] = Cls().parse(bs),
    [dump_stream] / [loads] / [parse_each] = several of them on one stream (Model/C10Stream.v).
-   A stream is the list of unread bytes.  No theorem below has a hypothesis on the schema, on the class the reader
-   uses or on the bytes that follow a frame; the only side condition is that a stream is shorter than 2^64 bytes
-   (a longer length does not fit the 10-byte varint load_varint accepts).
+   A stream is the list of unread bytes.  The framing / truncation theorems of the first four sections have no
+   hypothesis on the schema, on the class the reader uses or on the bytes that follow a frame; their only side
+   condition is that a stream is shorter than 2^64 bytes (a longer length does not fit the 10-byte varint
+   load_varint accepts).
+   The last section ("the round trip, end to end") composes them with the binary round trip C01 and the schema
+   evolution C08, under exactly their decidable side conditions (c01_schema_ok, c01_value_ok, masks_ok) and the size
+   bound per message (msg_small, Model/C10Rt.v): C10_stream_roundtrip (the premise [good] of C10_stream_rt_eq
+   discharged), C10_stream_older_reader, C10_truncate_roundtrip.  [norm_obj] (Model/C01Def.v) is the closed form of
+   the decoded object, [whole_frames sc ms k] (Model/C10Rt.v) the number of frames wholly within the first k bytes.
    This file holds only statements; each proof is one [exact] of a lemma from Proofs/C10*P.v. *)
 From BP Require Import Base.Prelude Model.Types Model.Varint Model.Object Model.Eq Model.Encode Model.Len Model.Decode.
 From BP Require Import Model.C10Stream Spec.Varint.
 From BP Require Import Proofs.C10FrameP Proofs.C10StreamP Proofs.C10TotalP.
+From BP Require Import Model.WellFormed Model.C10Rt.
+From BP Require Model.C01Def Model.C08Step Proofs.C08EvoDef.
+From BP Require Proofs.C10RtGenP Proofs.C10RtP Proofs.C10RtOldP Proofs.C10RtCutP.
 
 (* ---------------------------------------------------------------------------------------------
    one frame
@@ -271,3 +280,231 @@ Example C10_ex_rt_premise :
 Proof.
   intros m bs [-> | [-> | ->]] E; vm_compute in E; injection E as <-; eexists; split; vm_compute; reflexivity.
 Qed.
+
+(* =============================================================================================
+   the round trip, end to end (C10 composed with C01 and C08)
+   Side conditions, all decidable (booleans evaluated by vm_compute in the Example below):
+     C01Def.c01_schema_ok sc   wf_schema + the first classes ARE the bundled ones + map-Entry classes annotated like the map
+     C01Def.c01_value_ok sc m  in_range + oneof members clean + _group_current sane + no unknown bytes + dict keys distinct
+     deep nan_free (PMsg m)    no NaN directly inside a list / as a map value (K7 of C01: == is not NaN-aware there);
+                               needed for the == conclusions only
+     msg_small sc m            bytes(m) exists and is shorter than 2^64 bytes (C01's size bound, per message)
+     masks_ok sn masks         the deleted fields leave the bundled classes and the map-Entry classes alone (C08)
+   No bound on the number of messages, their classes, nesting depth or sizes below 2^64; [rest] is ANY continuation.
+   ============================================================================================= *)
+
+(* (1) The stream round trip.  The writer does not raise; the successive loads with the writers' classes return EXACTLY
+   the decoded forms norm_obj sc m, in order, and leave exactly [rest]; each returned message is == the written one with
+   either operand on the left, has the same bytes and the same which_one_of for every group; writing the returned
+   messages again gives the same stream.  Empty messages (frame 00) and mixed classes included. *)
+Theorem C10_stream_roundtrip : forall sc ms rest,
+  C01Def.c01_schema_ok sc = true ->
+  Forall (fun m => C01Def.c01_value_ok sc m = true /\ C01Def.deep C01Def.nan_free (PMsg m) = true) ms ->
+  Forall (fun m => msg_small sc m = true) ms ->
+  exists stream,
+    dump_stream sc ms = Ok stream /\
+    loads sc (map ocls ms) (stream ++ rest) = (map (C01Def.norm_obj sc) ms, Ok rest) /\
+    Forall (fun m => obj_eq sc m (C01Def.norm_obj sc m) = true /\ obj_eq sc (C01Def.norm_obj sc m) m = true /\
+                     enc_obj sc (C01Def.norm_obj sc m) = enc_obj sc m /\
+                     (forall g, which_one_of (C01Def.norm_obj sc m) g = which_one_of m g)) ms /\
+    dump_stream sc (map (C01Def.norm_obj sc) ms) = Ok stream.
+Proof. exact C10RtP.stream_roundtrip_c01. Qed.
+Print Assumptions C10_stream_roundtrip.
+
+(* ... without the NaN condition: everything but == ([same_message], Model/C10Rt.v, states == under nan_free per message,
+   and adds: same class, same delimited frame, and the attribute observers of C01 under sow_ok) *)
+Theorem C10_stream_decoded : forall sc ms rest,
+  C01Def.c01_schema_ok sc = true ->
+  Forall (fun m => C01Def.c01_value_ok sc m = true) ms -> Forall (fun m => msg_small sc m = true) ms ->
+  exists stream,
+    dump_stream sc ms = Ok stream /\
+    loads sc (map ocls ms) (stream ++ rest) = (map (C01Def.norm_obj sc) ms, Ok rest) /\
+    Forall (fun m => same_message sc m (C01Def.norm_obj sc m)) ms /\
+    dump_stream sc (map (C01Def.norm_obj sc) ms) = Ok stream.
+Proof. exact C10RtP.stream_decoded. Qed.
+Print Assumptions C10_stream_decoded.
+
+(* the NaN condition of the == conclusions is needed (K7 of C01 at stream level): for an empty message followed by a message
+   with a NaN inside a repeated double everything else holds — exact frames, norm_obj, the same stream again — but == fails
+   in both operand orders *)
+Theorem C10_stream_eq_nan_refuted :
+  exists sc ms stream,
+    C01Def.c01_schema_ok sc = true /\ forallb (fun m => C01Def.c01_value_ok sc m && msg_small sc m) ms = true /\
+    dump_stream sc ms = Ok stream /\
+    loads sc (map ocls ms) stream = (map (C01Def.norm_obj sc) ms, Ok []) /\
+    dump_stream sc (map (C01Def.norm_obj sc) ms) = Ok stream /\
+    forallb (fun m => obj_eq sc m (C01Def.norm_obj sc m)) ms = false /\
+    forallb (fun m => obj_eq sc (C01Def.norm_obj sc m) m) ms = false.
+Proof. exact C10RtP.stream_eq_nan_refuted. Qed.
+Print Assumptions C10_stream_eq_nan_refuted.
+
+(* the size bound per message follows from the bound on the whole stream that the theorems above this section use *)
+Theorem C10_small_of_stream : forall sc ms stream,
+  dump_stream sc ms = Ok stream -> Zlength stream < 2 ^ 64 -> Forall (fun m => msg_small sc m = true) ms.
+Proof. exact C10RtP.small_of_stream. Qed.
+Print Assumptions C10_small_of_stream.
+
+(* (2) Reader older than writer.  The stream written with the newer schema sn is read with the classes of
+   drop_fields masks sn (ANY subset of the fields of ANY user class deleted, at every nesting depth).  No load raises and
+   the run leaves exactly [rest]; for each message ([older_view], Model/C10Rt.v): the load returns what the older class
+   parses from bytes(m), of the same class number, and consumes exactly the frame of m whatever follows it; the older
+   writer re-encodes it to as many bytes, which the newer class parses to norm_obj sn m.  At stream level: the older
+   writer's stream for the messages it read has the length of the original, and the newer classes read it back, whatever
+   follows it, as exactly [norm_obj sn m | m in ms] — the messages (1) returns, == the written ones ([same_message]). *)
+Theorem C10_stream_older_reader : forall sn masks ms rest,
+  C01Def.c01_schema_ok sn = true -> C08EvoDef.masks_ok sn masks = true ->
+  Forall (fun m => C01Def.c01_value_ok sn m = true) ms -> Forall (fun m => msg_small sn m = true) ms ->
+  exists stream mos stream2,
+    dump_stream sn ms = Ok stream /\
+    Forall2 (older_view sn masks) ms mos /\
+    loads (C08Step.drop_fields masks sn) (map ocls ms) (stream ++ rest) = (mos, Ok rest) /\
+    dump_stream (C08Step.drop_fields masks sn) mos = Ok stream2 /\ length stream2 = length stream /\
+    (forall rest', loads sn (map ocls ms) (stream2 ++ rest') = (map (C01Def.norm_obj sn) ms, Ok rest')) /\
+    Forall (fun m => same_message sn m (C01Def.norm_obj sn m)) ms.
+Proof. exact C10RtOldP.stream_older_reader. Qed.
+Print Assumptions C10_stream_older_reader.
+
+(* (3) Truncation, headline form.  The stream of (1) cut after ANY number k of bytes (k beyond the end: no cut): the loads
+   return exactly the decoded forms of the first [whole_frames sc ms k] messages — those whose frames lie wholly before
+   the cut — each == the written one; then, when something was cut off, the next load raises a Python exception (never
+   the model's fuel marker) and strictly fewer than all messages came back; otherwise all came back and nothing is left.
+   A shortened or otherwise different message is never returned. *)
+Theorem C10_truncate_roundtrip : forall sc ms stream k,
+  C01Def.c01_schema_ok sc = true ->
+  Forall (fun m => C01Def.c01_value_ok sc m = true /\ C01Def.deep C01Def.nan_free (PMsg m) = true) ms ->
+  Forall (fun m => msg_small sc m = true) ms ->
+  dump_stream sc ms = Ok stream ->
+  exists r,
+    loads sc (map ocls ms) (firstn k stream) = (map (C01Def.norm_obj sc) (firstn (whole_frames sc ms k) ms), r) /\
+    (if (k <? length stream)%nat
+     then (exists e, r = Err e /\ e <> EFuel) /\ (whole_frames sc ms k < length ms)%nat
+     else r = Ok [] /\ whole_frames sc ms k = length ms) /\
+    Forall (fun m => obj_eq sc m (C01Def.norm_obj sc m) = true /\ obj_eq sc (C01Def.norm_obj sc m) m = true /\
+                     enc_obj sc (C01Def.norm_obj sc m) = enc_obj sc m /\
+                     (forall g, which_one_of (C01Def.norm_obj sc m) g = which_one_of m g))
+           (firstn (whole_frames sc ms k) ms).
+Proof. exact C10RtCutP.stream_truncate_roundtrip. Qed.
+Print Assumptions C10_truncate_roundtrip.
+
+(* what whole_frames counts: a cut inside the stream falls into the frame of exactly one message, and the whole frames
+   are those of the messages before it *)
+Theorem C10_whole_frames : forall sc ms stream k,
+  Forall (fun m => msg_small sc m = true) ms ->
+  dump_stream sc ms = Ok stream -> (k < length stream)%nat ->
+  exists ms1 m ms2 pre_s F,
+    ms = ms1 ++ m :: ms2 /\ dump_stream sc ms1 = Ok pre_s /\ dump sc m true = Ok F /\
+    (length pre_s <= k < length pre_s + length F)%nat /\ whole_frames sc ms k = length ms1.
+Proof. exact C10RtCutP.whole_frames_spec. Qed.
+Print Assumptions C10_whole_frames.
+
+(* (3) for a reader older than the writer: the cut stream gives exactly the first whole_frames of the messages the
+   older reader returns from the uncut stream (each an [older_view] of the written one), then raises *)
+Theorem C10_truncate_older_reader : forall sn masks ms stream k,
+  C01Def.c01_schema_ok sn = true -> C08EvoDef.masks_ok sn masks = true ->
+  Forall (fun m => C01Def.c01_value_ok sn m = true) ms -> Forall (fun m => msg_small sn m = true) ms ->
+  dump_stream sn ms = Ok stream ->
+  exists mos r,
+    Forall2 (older_view sn masks) ms mos /\
+    loads (C08Step.drop_fields masks sn) (map ocls ms) (firstn k stream) = (firstn (whole_frames sn ms k) mos, r) /\
+    (if (k <? length stream)%nat
+     then (exists e, r = Err e /\ e <> EFuel) /\ (whole_frames sn ms k < length ms)%nat
+     else r = Ok [] /\ whole_frames sn ms k = length ms).
+Proof. exact C10RtCutP.stream_older_truncate. Qed.
+Print Assumptions C10_truncate_older_reader.
+
+(* (3) for ANY reader schema / classes that parse every payload (the generic form both of the above instantiate) *)
+Theorem C10_truncate_any_reader : forall scW scR ms cs stream k l,
+  Forall (fun m => msg_small scW m = true) ms ->
+  dump_stream scW ms = Ok stream -> length cs = length ms ->
+  parse_each scW scR cs ms = (l, true) ->
+  exists r, loads scR cs (firstn k stream) = (firstn (whole_frames scW ms k) l, r) /\
+            (if (k <? length stream)%nat
+             then (exists e, r = Err e /\ e <> EFuel) /\ (whole_frames scW ms k < length ms)%nat
+             else r = Ok [] /\ whole_frames scW ms k = length ms).
+Proof. exact C10RtCutP.stream_cut_total. Qed.
+Print Assumptions C10_truncate_any_reader.
+
+(* ---------------------------------------------------------------------------------------------
+   non-vacuity of the round-trip section: class 11 {x: int32 = 1; s: optional string = 2; n: message(11) = 3;
+   oneof 0 {u1: string = 4; u2: sint64 = 5}; r: repeated double = 6} (recursive), the field-less class 12.
+   Three messages of the two classes, the middle one EMPTY (frame 00, flag down before / up after the round trip):
+   a nested message with a set-but-empty optional string and a negative int32, a selected oneof member, a packed list;
+   a message whose selected oneof member holds its default "" and whose serialized_on_wire flag is down.
+   The older reader loses x, s, u1 and r (a oneof member deleted while its sibling is kept), in the nested message too.
+   --------------------------------------------------------------------------------------------- *)
+Definition rt_sc : schema :=
+  mkS (builtin_classes ++
+       [mkC [mkF [x78] 1 TInt32 None None None false (HPlain PyInt) 0;
+             mkF [x73] 2 TString None None None true (HOptional PyStr) 0;
+             mkF [x6e] 3 TMessage None None None false (HPlain (PyMsg 11)) 0;
+             mkF [x75; x31] 4 TString None (Some 0%nat) None false (HPlain PyStr) 0;
+             mkF [x75; x32] 5 TSInt64 None (Some 0%nat) None false (HPlain PyInt) 0;
+             mkF [x72] 6 TDouble None None None false (HList PyFloat) 0] 1;
+        mkC [] 0]) [].
+Definition rt_inner : obj :=
+  Obj 11 [PInt (-1); PStr []; PPlaceholder; PPlaceholder; PPlaceholder; PPlaceholder] true [] [None].
+Definition rt_m1 : obj :=
+  Obj 11 [PInt 150; PNone; PMsg rt_inner; PPlaceholder; PInt (-2); PList [PFloat 4609434218613702656]] true [] [Some 4%nat].
+Definition rt_m2 : obj := Obj 12 [] false [] [].
+Definition rt_m3 : obj :=
+  Obj 11 [PPlaceholder; PStr [x68; x69]; PPlaceholder; PStr []; PPlaceholder; PPlaceholder] false [] [Some 3%nat].
+Definition rt_ms : list obj := [rt_m1; rt_m2; rt_m3].
+Definition rt_masks : list (list bool) :=
+  [[]; []; []; []; []; []; []; []; []; []; []; [false; false; true; false; true; false]].
+Definition rt_stream : list byte :=
+  [x1e; x08; x96; x01; x1a; x0d; x08; xff; xff; xff; xff; xff; xff; xff; xff; xff; x01; x12; x00; x28; x03; x32; x08;
+   x00; x00; x00; x00; x00; x00; xf8; x3f;
+   x00;
+   x06; x12; x02; x68; x69; x22; x00].
+
+(* hypotheses of C10_stream_roundtrip / C10_stream_decoded / C10_truncate_roundtrip, and what they conclude here *)
+Example C10_ex_roundtrip :
+  C01Def.c01_schema_ok rt_sc = true /\
+  forallb (fun m => C01Def.c01_value_ok rt_sc m && C01Def.deep C01Def.nan_free (PMsg m) && msg_small rt_sc m) rt_ms = true /\
+  map ocls rt_ms = [11; 12; 11]%nat /\
+  dump_stream rt_sc rt_ms = Ok rt_stream /\
+  loads rt_sc (map ocls rt_ms) (rt_stream ++ [xff]) = (map (C01Def.norm_obj rt_sc) rt_ms, Ok [xff]) /\
+  map (C01Def.norm_obj rt_sc) rt_ms <> rt_ms /\
+  forallb (fun m => obj_eq rt_sc m (C01Def.norm_obj rt_sc m) && obj_eq rt_sc (C01Def.norm_obj rt_sc m) m) rt_ms = true.
+Proof. vm_compute. repeat split; try reflexivity. discriminate. Qed.
+
+(* hypotheses of C10_small_of_stream, C10_whole_frames (with C10_ex_truncate below) and C10_truncate_any_reader *)
+Example C10_ex_small_any :
+  dump_stream rt_sc rt_ms = Ok rt_stream /\ Zlength rt_stream < 2 ^ 64 /\
+  length (map ocls rt_ms) = length rt_ms /\
+  parse_each rt_sc rt_sc (map ocls rt_ms) rt_ms = (map (C01Def.norm_obj rt_sc) rt_ms, true) /\
+  (17 < length rt_stream)%nat /\ whole_frames rt_sc rt_ms 17 = 0%nat /\ whole_frames rt_sc rt_ms 33 = 2%nat.
+Proof. vm_compute. repeat split; reflexivity || lia || (repeat constructor). Qed.
+
+Example C10_ex_roundtrip_hyps :
+  Forall (fun m => C01Def.c01_value_ok rt_sc m = true /\ C01Def.deep C01Def.nan_free (PMsg m) = true) rt_ms /\
+  Forall (fun m => msg_small rt_sc m = true) rt_ms.
+Proof. split; repeat constructor. Qed.
+
+(* hypotheses of C10_stream_older_reader / C10_truncate_older_reader: the older reader keeps the deleted fields as
+   unknown bytes at both nesting levels, the older writer's stream differs from the original and has its length *)
+Definition rt_old : schema := C08Step.drop_fields rt_masks rt_sc.
+Definition rt_mos : list obj := Eval vm_compute in fst (loads rt_old (map ocls rt_ms) rt_stream).
+Definition rt_stream2 : list byte :=
+  Eval vm_compute in match dump_stream rt_old rt_mos with Ok s => s | Err _ => [] end.
+Example C10_ex_older_reader :
+  C08EvoDef.masks_ok rt_sc rt_masks = true /\
+  loads rt_old (map ocls rt_ms) (rt_stream ++ [xff]) = (rt_mos, Ok [xff]) /\
+  map (fun mo => length (ounk mo)) rt_mos = [13; 0; 6]%nat /\
+  dump_stream rt_old rt_mos = Ok rt_stream2 /\ rt_stream2 <> rt_stream /\ length rt_stream2 = length rt_stream /\
+  loads rt_sc (map ocls rt_ms) (rt_stream2 ++ [xff]) = (map (C01Def.norm_obj rt_sc) rt_ms, Ok [xff]).
+Proof. vm_compute. repeat split; try reflexivity. discriminate. Qed.
+
+(* every cut point of the example stream: whole_frames, and how the run ends (same and older reader) *)
+Definition rt_end (r : result (list byte)) : nat := match r with Ok [] => 0 | Ok _ => 1 | Err _ => 2 end.
+Example C10_ex_truncate :
+  length rt_stream = 39%nat /\
+  map (fun k => (whole_frames rt_sc rt_ms k, rt_end (snd (loads rt_sc (map ocls rt_ms) (firstn k rt_stream))),
+                 rt_end (snd (loads rt_old (map ocls rt_ms) (firstn k rt_stream))))) (seq 0 41) =
+  map (fun k => ((if k <? 31 then 0 else if k <? 32 then 1 else if k <? 39 then 2 else 3)%nat,
+                 (if k <? 39 then 2 else 0)%nat, (if k <? 39 then 2 else 0)%nat)) (seq 0 41) /\
+  map (fun k => fst (loads rt_sc (map ocls rt_ms) (firstn k rt_stream))) (seq 0 41) =
+  map (fun k => map (C01Def.norm_obj rt_sc) (firstn (whole_frames rt_sc rt_ms k) rt_ms)) (seq 0 41) /\
+  map (fun k => fst (loads rt_old (map ocls rt_ms) (firstn k rt_stream))) (seq 0 41) =
+  map (fun k => firstn (whole_frames rt_sc rt_ms k) rt_mos) (seq 0 41).
+Proof. vm_compute. repeat split; reflexivity. Qed.
